@@ -155,7 +155,7 @@ def afterPull (s : MacState) (t : Nat) (it : Nat) (a : Ans) (pre : List Call) : 
     let s1 := { s with workers := s.workers ++ [w], nextProc := s.nextProc + 1, pds := s.pds ++ [d],
                        pulled := s.pulled ++ [it], bSlot := false, granted := false }
     let s2 := s1.updRep t
-    (s2.requestSlot t, pre ++ [.draw d, .spawn w.ord])
+    (s2.requestSlot t, pre ++ [.draw d, .spawn w.ord, .awaitReq])
   | [] => ({ s with bpc := .dead, flagged := true }, pre ++ [.bad])
 
 def behaviour (s : MacState) (t : Nat) (a : Ans) : MacState × List Call :=
@@ -167,7 +167,7 @@ def behaviour (s : MacState) (t : Nat) (a : Ans) : MacState × List Call :=
   | .setupWait =>
     let s1 := { s with tt := { s.tt with setup := s.tt.setup + s.cfg.setup }, rep := some (0, 0), tEnd := some t }
     let s2 := s1.updRep t
-    (s2.requestSlot t, [])
+    (s2.requestSlot t, [.awaitReq])
   | .slotWait =>
     if !s.granted then ({ s with flagged := true }, [.bad]) else
     if s.numWorkers ≥ s.occ.length then s.crashB .index [] else      -- time_per_work_occupancy[num_workers]
@@ -176,7 +176,7 @@ def behaviour (s : MacState) (t : Nat) (a : Ans) : MacState × List Call :=
     | .fa =>
       let toks := (List.range s.cfg.nin).map (· + s1.nextTok)
       ({ s1 with granted := false, bpc := .inAny toks, nextTok := s1.nextTok + s.cfg.nin, openToks := s1.openToks ++ toks },
-       (List.range s.cfg.nin).map (fun j => .rg j (s1.nextTok + j)))
+       (List.range s.cfg.nin).map (fun j => .rg j (s1.nextTok + j)) ++ [.awaitAny s.cfg.nin])
     | _ =>
       let (k?, rr', c0) := selIdx s.cfg.inPol s1.rrIn s.cfg.nin a
       match k? with
@@ -187,7 +187,7 @@ def behaviour (s : MacState) (t : Nat) (a : Ans) : MacState × List Call :=
           let j := k.toNat
           ({ s1 with rrIn := rr', granted := false, insel := s1.insel ++ [j], bpc := .inTok j s1.nextTok,
                      nextTok := s1.nextTok + 1, openToks := s1.openToks ++ [s1.nextTok] },
-           c0 ++ [.rg j s1.nextTok])
+           c0 ++ [.rg j s1.nextTok, .awaitTok])
   | .inAny toks =>
     match firstTrig toks a.trig, a.items with
     | some idx, it :: _ =>
@@ -224,14 +224,14 @@ def scanCanM (cans : List Bool) (n : Nat) : List Call × Option Nat :=
   let rec go (j : Nat) (cs : List Bool) (fuel : Nat) (acc : List Call) : List Call × Option Nat :=
     match fuel, cs with
     | 0, _ => (acc, none)
-    | _, [] => (acc, none)
+    | _ + 1, [] => (acc ++ [.bad], none)          -- an out-edge was not probed although none before it had room
     | f + 1, c :: cs => if c then (acc ++ [.can j true], some j) else go (j + 1) cs f (acc ++ [.can j false])
   go 0 cans n []
 
 def spawnPush (s : MacState) (i : Nat) (w : Worker) (edge : Nat) (fa : Bool) : MacState × List Call :=
   let p : MPush := { ord := s.nextProc, edge := edge, item := w.item }
   ((({ s with pushes := s.pushes ++ [p], nextProc := s.nextProc + 1 }).setWorker i { w with pc := .pushWait p.ord fa, blocked := true }),
-   [.spawn p.ord])
+   [.spawn p.ord, .awaitProc])
 
 def worker (s : MacState) (i : Nat) (w : Worker) (t : Nat) (a : Ans) : MacState × List Call :=
   match w.pc with
@@ -245,7 +245,7 @@ def worker (s : MacState) (i : Nat) (w : Worker) (t : Nat) (a : Ans) : MacState 
         let s2 := (s1.setWorker i w1).updRep t
         let toks := (List.range s.cfg.nout).map (· + s2.nextTok)
         (({ s2 with nextTok := s2.nextTok + s.cfg.nout, openToks := s2.openToks ++ toks }).setWorker i { w1 with pc := .outAny toks },
-         (List.range s.cfg.nout).map (fun j => .rp j (s2.nextTok + j)))
+         (List.range s.cfg.nout).map (fun j => .rp j (s2.nextTok + j)) ++ [.awaitAny s.cfg.nout])
       else
         let (calls, found) := scanCanM a.cans s.cfg.nout
         match found with
@@ -257,7 +257,7 @@ def worker (s : MacState) (i : Nat) (w : Worker) (t : Nat) (a : Ans) : MacState 
           (s3, calls ++ c)
         | none =>
           let s1 := { s with discarded := s.discarded + 1, dropped := s.dropped ++ [w.item] }
-          (s1.release i w, calls)
+          (s1.release i w, calls ++ [.awaitReq])
     | _ =>
       let (k?, rr', c0) := selIdx s.cfg.outPol s.rrOut s.cfg.nout a
       match k? with
@@ -270,7 +270,7 @@ def worker (s : MacState) (i : Nat) (w : Worker) (t : Nat) (a : Ans) : MacState 
           let s1 := (({ s with rrOut := rr', outsel := s.outsel ++ [j] }).setWorker i w1).updRep t
           if s.cfg.blocking then
             (({ s1 with nextTok := s1.nextTok + 1, openToks := s1.openToks ++ [s1.nextTok] }).setWorker i { w1 with pc := .outTok j s1.nextTok },
-             c0 ++ [.rp j s1.nextTok])
+             c0 ++ [.rp j s1.nextTok, .awaitTok])
           else
             match a.cans with
             | true :: _ =>
@@ -278,7 +278,7 @@ def worker (s : MacState) (i : Nat) (w : Worker) (t : Nat) (a : Ans) : MacState 
               (s2, c0 ++ [.can j true] ++ c)
             | false :: _ =>
               let s2 := { s1 with discarded := s1.discarded + 1, dropped := s1.dropped ++ [w.item] }
-              (s2.release i w1, c0 ++ [.can j false])
+              (s2.release i w1, c0 ++ [.can j false, .awaitReq])
             | [] => ({ s with flagged := true }, [.bad])
   | .outAny toks =>
     match firstTrig toks a.trig with
@@ -288,20 +288,20 @@ def worker (s : MacState) (i : Nat) (w : Worker) (t : Nat) (a : Ans) : MacState 
       let s1 := { s with outsel := s.outsel ++ [idx], processed := s.processed + 1, pushedItems := s.pushedItems ++ [w.item],
                          openToks := s.openToks.filter (fun x => !toks.contains x) }
       let s2 := s1.updRep t
-      (s2.release i w, cancels ++ [.put idx tok w.item])
+      (s2.release i w, cancels ++ [.put idx tok w.item, .awaitReq])
     | none => (s.setWorker i { w with pc := .crashed }, [.crash .value])
   | .outTok e tok =>
     if !a.trig.contains tok then ({ s with flagged := true }, [.bad]) else
     let s1 := { s with processed := s.processed + 1, pushedItems := s.pushedItems ++ [w.item],
                        openToks := s.openToks.filter (· != tok) }
-    (s1.release i w, [.put e tok w.item])
+    (s1.release i w, [.put e tok w.item, .awaitReq])
   | .pushWait sub fa =>
     match s.pushes.find? (fun p => p.ord = sub) with
     | some p =>
       if !p.done || w.has then ({ s with flagged := true }, [.bad]) else     -- done ⇒ the item was handed over
       let s1 := { s with processed := s.processed + 1 }
       let s2 := if fa then s1.updRep t else s1
-      (s2.release i w, [])
+      (s2.release i w, [.awaitReq])
     | none => ({ s with flagged := true }, [.bad])
   | .released =>
     let s0 := s.grantQueued
@@ -316,7 +316,7 @@ def pushStep (s : MacState) (p : MPush) (a : Ans) : MacState × List Call :=
   | none =>
     let p' := { p with tok := some s.nextTok }
     ({ s with pushes := s.pushes.map (fun q => if q.ord = p.ord then p' else q), nextTok := s.nextTok + 1,
-              openToks := s.openToks ++ [s.nextTok] }, [.rp p.edge s.nextTok])
+              openToks := s.openToks ++ [s.nextTok] }, [.rp p.edge s.nextTok, .awaitTok])
   | some tok =>
     if p.done ∨ !a.trig.contains tok then ({ s with flagged := true }, [.bad])
     else
